@@ -71,8 +71,8 @@ def ro_inv(W, H, root, name='RO_Inv'):
          forall_nodes(1, lambda s: Imp(A(H.mem(base, s), H.tag(s) == lit('story')), timing_ok(W, H, s)),
                       patterns=lambda s: [H.mem(base, s)])),
         ('%s.roEdStart_parseable' % name,
-         Imp(A(H.find(base, lit('roEdStart')) != null, text(H.find(base, lit('roEdStart'))) != none_s),
-             is_dt(text(H.find(base, lit('roEdStart')))))),
+         forall_nodes(1, lambda x: Imp(A(H.mem(base, x), H.tag(x) == lit('roEdStart'), text(x) != none_s), is_dt(text(x))),
+                      patterns=lambda x: [H.mem(base, x)])),
     ]
     return out
 
